@@ -616,7 +616,7 @@ func (m *Monitors) checkTasks(prev *vh.Snapshot, bi *BatchInfo, next *vh.Snapsho
 					if p := next.P[t0.Root]; p != nil && p.State != 1 && m.hasCmd(cmds, t_aio.CompleteTasks, t0.Root) {
 						m.violate("C08", "row:notify-finished-by-late-completion", fmt.Sprintf("notification task %s was finished without any hand-off attempt by a CompleteTasks of a request that lost the completion race on %s", t0.Id, t0.Root))
 					} else {
-						m.violate("C08", "row:notify-finished-without-handoff", fmt.Sprintf("notification task %s finished without a recorded hand-off attempt", t0.Id))
+						m.violate("C08,C06", "row:notify-finished-without-handoff", fmt.Sprintf("notification task %s finished without a recorded hand-off attempt", t0.Id))
 					}
 				}
 				break
@@ -1296,7 +1296,7 @@ func (m *Monitors) OnSend(sub *t_aio.SenderSubmission, sm *SentMsg) {
 		"heartbeat": fmt.Sprintf("%s/tasks/heartbeat/%s/%d", base, row.Id, sel),
 	}
 	if !mapEq(body.Href, want) {
-		m.violate("C08", "dispatch:hrefs", fmt.Sprintf("message hrefs %v, expected %v", body.Href, want))
+		m.violate("C08,C19", "dispatch:hrefs", fmt.Sprintf("message hrefs %v, expected %v", body.Href, want))
 	}
 }
 
@@ -1463,6 +1463,19 @@ func (m *Monitors) OnReturn(o *OpRec) {
 			}
 		}
 	case t_api.ClaimTask:
+		if st >= 40000 && st < 50000 {
+			// a definite refusal: none of the request's own transactions may have claimed the task
+			for _, ot := range o.Txs {
+				if ot.Failed || ot.Tx.Results == nil {
+					continue
+				}
+				for j, c := range ot.Tx.Commands {
+					if c.Kind == t_aio.UpdateTask && c.UpdateTask.Id == o.Req.ClaimTask.Id && int(c.UpdateTask.State) == 4 && j < len(ot.Tx.Results) && rowsOf(ot.Tx.Results[j]) == 1 {
+						m.violate("C07,C02", "ack:claim-refused-after-own-commit", fmt.Sprintf("op%d %s was refused with %d although its own transaction had claimed the task (the worker is told it does not hold a task it holds)", o.Idx, o.Req, st))
+					}
+				}
+			}
+		}
 		if st == 20100 {
 			own := false
 			for _, ot := range o.Txs {
